@@ -143,6 +143,8 @@ struct MTrack {
 	vol_pending: Option<f32>,
 	fx: Vec<MFx>,
 	routes: Vec<(usize, f32)>,
+	/// send-route volume changes under way: (route index, new dB, frames until the tween has certainly ended)
+	route_pending: Vec<(usize, f32, i64)>,
 	sounds: Vec<MSound>,
 	children: Vec<MTrack>,
 	handle: Option<TrackHandle>,
@@ -214,7 +216,7 @@ struct Model {
 impl Model {
 	/// effects of commands issued since the previous callback take hold; returns true when this callback
 	/// contains a fade ramp (resume / volume change) and is not compared sample-exactly
-	fn on_callback_start(&mut self) -> bool {
+	fn on_callback_start(&mut self, frames: usize) -> bool {
 		let mut transition = false;
 		fn tick(alive: &mut bool, remove_in: &mut Option<u8>, picked_up: &mut bool) {
 			if let Some(k) = *remove_in {
@@ -227,8 +229,20 @@ impl Model {
 			}
 			*picked_up = true;
 		}
-		fn walk(t: &mut MTrack, transition: &mut bool) {
+		fn walk(t: &mut MTrack, transition: &mut bool, frames: usize, ancestors_running: bool) {
 			tick(&mut t.alive, &mut t.remove_in, &mut t.picked_up);
+			// route volume tweens run whenever the track is processed, i.e. its ancestors are not paused (whether the track
+			// itself is paused does not matter); while one may be under way the callback is a ramp
+			if ancestors_running {
+				for p in t.route_pending.iter_mut() {
+					*transition = true;
+					p.2 -= frames as i64;
+					if p.2 <= 0 {
+						t.routes[p.0].1 = p.1;
+					}
+				}
+				t.route_pending.retain(|p| p.2 > 0);
+			}
 			if let Some(p) = t.pause_pending.take() {
 				if t.paused && !p {
 					*transition = true;
@@ -242,12 +256,13 @@ impl Model {
 			for s in t.sounds.iter_mut() {
 				tick(&mut s.alive, &mut s.remove_in, &mut s.picked_up);
 			}
+			let running = ancestors_running && t.alive && !t.paused;
 			for c in t.children.iter_mut() {
-				walk(c, transition);
+				walk(c, transition, frames, running);
 			}
 		}
 		for t in self.tracks.iter_mut() {
-			walk(t, &mut transition);
+			walk(t, &mut transition, frames, true);
 		}
 		for s in self.sends.iter_mut() {
 			tick(&mut s.alive, &mut s.remove_in, &mut s.picked_up);
@@ -468,7 +483,7 @@ fn one_case(ctx: &mut Ctx, idx: u64, r: &mut Rng) {
 								}
 								if let Some(h) = t.handle.as_mut() {
 									if let Ok(nh) = h.add_sub_track(b.take().unwrap()) {
-										new = Some(MTrack { id, alive: true, remove_in: None, picked_up: false, paused: false, pause_pending: None, vol_db: vol, vol_pending: None, fx: fxs.clone(), routes: routes.clone(), sounds: vec![], children: vec![], handle: Some(nh), depth: t.depth + 1 });
+										new = Some(MTrack { id, alive: true, remove_in: None, picked_up: false, paused: false, pause_pending: None, vol_db: vol, vol_pending: None, fx: fxs.clone(), routes: routes.clone(), route_pending: vec![], sounds: vec![], children: vec![], handle: Some(nh), depth: t.depth + 1 });
 									}
 								}
 								if let Some(n) = new.take() {
@@ -479,7 +494,7 @@ fn one_case(ctx: &mut Ctx, idx: u64, r: &mut Rng) {
 							log_lines.push(format!("cb{}: add nested track {}", cb, id));
 						} else {
 							let h = rig.mgr.add_sub_track(b).map_err(|_| "track limit")?;
-							model.tracks.push(MTrack { id, alive: true, remove_in: None, picked_up: false, paused: false, pause_pending: None, vol_db: vol, vol_pending: None, fx: fxs, routes, sounds: vec![], children: vec![], handle: Some(h), depth: 0 });
+							model.tracks.push(MTrack { id, alive: true, remove_in: None, picked_up: false, paused: false, pause_pending: None, vol_db: vol, vol_pending: None, fx: fxs, routes, route_pending: vec![], sounds: vec![], children: vec![], handle: Some(h), depth: 0 });
 							log_lines.push(format!("cb{}: add track {}", cb, id));
 						}
 					}
@@ -558,6 +573,28 @@ fn one_case(ctx: &mut Ctx, idx: u64, r: &mut Rng) {
 							}
 						});
 					}
+					7 | 8 if alive > 0 && g.r.chance(0.35) => {
+						// change a send-route volume with a tween of 0..3 internal buffers (also on paused tracks: the tween runs on)
+						let mut k = g.r.below(alive as u64) as usize;
+						let v = g.r.f32_in(-18.0, 0.0);
+						let chunks = g.r.f64_in(0.0, 3.0);
+						let which = g.r.below(8) as usize;
+						let sends_ids: Vec<Option<kira::track::SendTrackId>> = model.sends.iter().map(|s| s.handle.as_ref().map(|h| h.id())).collect();
+						with_kth(&mut model.tracks, &mut k, &mut |t: &mut MTrack| {
+							if t.routes.is_empty() || !t.route_pending.is_empty() {
+								return;
+							}
+							let ri = which % t.routes.len();
+							let si = t.routes[ri].0;
+							if let (Some(h), Some(Some(id))) = (t.handle.as_mut(), sends_ids.get(si)) {
+								let tw = kira::Tween { duration: std::time::Duration::from_secs_f64(chunks * ibs as f64 / sr as f64), ..Default::default() };
+								if h.set_send(*id, Decibels(v), tw).is_ok() {
+									t.route_pending.push((ri, v, (chunks.ceil() as i64 + 2) * ibs as i64));
+									log_lines.push(format!("cb{}: set_send(route {} of track {}, {} dB over {:.2} buffers)", cb, ri, t.id, v, chunks));
+								}
+							}
+						});
+					}
 					8 if alive > 0 && cb > 0 => {
 						// drop a track (with its subtree)
 						let mut k = g.r.below(alive as u64) as usize;
@@ -590,7 +627,7 @@ fn one_case(ctx: &mut Ctx, idx: u64, r: &mut Rng) {
 				_ => g.r.usize_in(1, ibs * 3 + 5),
 			};
 			// effects of the commands issued since the previous callback take hold at its start
-			let transition = model.on_callback_start();
+			let transition = model.on_callback_start(frames);
 			// per-callback call logs: (log, expected to be processed in this callback, name)
 			let mut logs: Vec<(Log, bool, String)> = vec![];
 			fn gather(ts: &Vec<MTrack>, anc_ok: bool, logs: &mut Vec<(Log, bool, String)>) {
